@@ -37,14 +37,22 @@ var debugOn = os.Getenv("C08_DEBUG") != ""
 // call runs one measurement of a real client in its own goroutine (a panic there ends the
 // process, as it would in the service) and waits for its result.
 func call(f func(ctx context.Context) error) (err error, returned bool) {
+	return callWithin(callLimit, f)
+}
+
+// crafted calls get a short deadline: when the scripted peer sends nothing acceptable the client
+// waits for its deadline, and nothing is learnt from waiting longer
+const craftedLimit = 1200 * time.Millisecond
+
+func callWithin(limit time.Duration, f func(ctx context.Context) error) (err error, returned bool) {
 	res := make(chan error, 1)
-	ctx, cancel := context.WithTimeout(context.Background(), callLimit)
+	ctx, cancel := context.WithTimeout(context.Background(), limit)
 	defer cancel()
 	go func() { res <- f(ctx) }()
 	select {
 	case err = <-res:
 		return err, true
-	case <-time.After(callLimit + 30*time.Second):
+	case <-time.After(limit + 40*time.Second):
 		hangNow("client call did not return after its deadline")
 		return nil, false
 	}
@@ -108,6 +116,7 @@ func runClientIP(e *netEnv, a []val) string {
 	defer p.conn.Close()
 	c := &client.IPClient{Log: discardLog}
 	local := &net.UDPAddr{IP: e.peerIP}
+	limit := craftedLimit
 	do := func(resps []val, honest bool) error {
 		done := make(chan struct{})
 		var mk func([]byte) []byte
@@ -115,7 +124,7 @@ func runClientIP(e *netEnv, a []val) string {
 			mk = honestNTP
 		}
 		go p.serve(resps, mk, done)
-		err, _ := call(func(ctx context.Context) error {
+		err, _ := callWithin(limit, func(ctx context.Context) error {
 			_, _, err := client.MeasureClockOffsetIP(ctx, discardLog, c, local, &net.UDPAddr{IP: e.peerIP, Port: p.port()})
 			return err
 		})
@@ -123,6 +132,7 @@ func runClientIP(e *netEnv, a []val) string {
 		return err
 	}
 	do(a[0].l, a[1].z == 1)
+	limit = callLimit
 	err := do(nil, true)
 	if err != nil {
 		note("cli.ip sentinel: " + err.Error())
@@ -263,13 +273,14 @@ func runClientNTS(e *netEnv, a []val) string {
 	_, kePort, _ := net.SplitHostPort(p.ln.Addr().String())
 	c.Auth.NTSKEFetcher.Port = kePort
 	local := &net.UDPAddr{IP: e.peerIP}
+	ntsLimit := 3 * time.Second
 	do := func(keLens []int64, mode int64, replyLens []int64) error {
 		p.mu.Lock()
 		p.keLens = keLens
 		p.mu.Unlock()
 		done := make(chan struct{})
 		go p.ntp.serve(nil, func(req []byte) []byte { return p.ntsReply(req, mode, replyLens) }, done)
-		err, _ := call(func(ctx context.Context) error {
+		err, _ := callWithin(ntsLimit, func(ctx context.Context) error {
 			_, _, err := client.MeasureClockOffsetIP(ctx, discardLog, c, local, &net.UDPAddr{IP: e.peerIP, Port: p.ntp.port()})
 			return err
 		})
@@ -293,6 +304,7 @@ func runClientNTS(e *netEnv, a []val) string {
 	// sentinel: whatever is left in the client's cookie store is used up (at most 40 calls), every
 	// call has to return; then a call after an honest key exchange must succeed
 	honest := []int64{124, 124, 124, 124, 124, 124, 124, 124}
+	ntsLimit = callLimit
 	var err error
 	for i := 0; i < 40; i++ {
 		err = do(honest, 0, []int64{124})
@@ -321,6 +333,7 @@ func runClientCSPTP(e *netEnv, a []val) string {
 	defer s320.Close()
 	c := &client.CSPTPClientIP{Log: discardLog}
 	peerAddr, _ := netip.AddrFromSlice(e.peerIP.To4())
+	limit := craftedLimit
 	do := func(script []val, honest bool) error {
 		done := make(chan struct{})
 		go func() {
@@ -352,7 +365,7 @@ func runClientCSPTP(e *netEnv, a []val) string {
 				s320.WriteToUDP(csptpFollowUp(seq, 0x73, 1), src)
 			}
 		}()
-		err, _ := call(func(ctx context.Context) error {
+		err, _ := callWithin(limit, func(ctx context.Context) error {
 			_, _, err := c.MeasureClockOffset(ctx, peerAddr, peerAddr)
 			return err
 		})
@@ -362,6 +375,7 @@ func runClientCSPTP(e *netEnv, a []val) string {
 		return err
 	}
 	do(a[0].l, a[1].z == 1)
+	limit = callLimit
 	err = do(nil, true)
 	if err != nil {
 		note("cli.csptp sentinel: " + err.Error())
@@ -434,6 +448,7 @@ func runClientSCION(e *netEnv, a []val) string {
 	ia := addr.IA(localIA)
 	local := udp.UDPAddr{IA: ia, Host: &net.UDPAddr{IP: e.peerIP}}
 	remote := udp.UDPAddr{IA: ia, Host: &net.UDPAddr{IP: e.peerIP, Port: 10123}}
+	limit := craftedLimit
 	do := func(script []val, honest bool) error {
 		done := make(chan struct{})
 		go func() {
@@ -456,7 +471,7 @@ func runClientSCION(e *netEnv, a []val) string {
 				}
 			}
 		}()
-		err, _ := call(func(ctx context.Context) error {
+		err, _ := callWithin(limit, func(ctx context.Context) error {
 			ps := []snet.Path{spath.Path{Src: ia, Dst: ia, DataplanePath: spath.Empty{}, NextHop: &net.UDPAddr{IP: e.peerIP, Port: port}}}
 			_, _, err := client.MeasureClockOffsetSCION(ctx, discardLog, []*client.SCIONClient{c}, local, remote, ps)
 			return err
@@ -466,6 +481,7 @@ func runClientSCION(e *netEnv, a []val) string {
 		return err
 	}
 	do(a[0].l, a[2].z == 1)
+	limit = callLimit
 	err = do(nil, true)
 	if err != nil {
 		note("cli.scion sentinel: " + err.Error())
